@@ -670,3 +670,15 @@ PROPS["C08"]["required_theorems"] += ["Failsafe.Props.C08." + t for t in ["cance
 PROPS["C10"]["required_theorems"] += ["Failsafe.Props.C10." + t for t in ["kernel_fn_called_iff", "kernel_result", "kernel_event_iff", "model_fallback_layer_is_the_codes"]]
 PROPS["C11"]["required_theorems"] += ["Failsafe.Props.C11." + t for t in ["kernel_key_precedence", "kernel_hit_iff", "kernel_store_iff", "kernel_no_key_no_io", "model_cache_layer_is_the_codes"]]
 PROPS["C17"]["required_theorems"] += ["Failsafe.Props.C17." + t for t in ["counters_invariant", "counter_steps", "executions_only_in_record", "model_last_outcome_views_are_the_codes"]]
+
+# what "a failure the policy handles" means is decided by the classification code (policy/policy.go, internal/util): every property whose
+# statement speaks of handled failures also runs the classify correspondence (round 9: a pointer target of HandleErrorTypes for an error
+# type with value receivers was only exercised there)
+_CLASSIFY_DIFF = {"slice": "classify", "n_quick": 150, "n_thorough": 1500, "seeds_thorough": 3, "n_search": 1500}
+for _p in ["C01", "C04", "C10", "C16"]:
+    if not any(d.get("slice") == "classify" for d in PROPS[_p]["diff"]):
+        PROPS[_p]["diff"] = PROPS[_p]["diff"] + [_CLASSIFY_DIFF]
+
+# the async cancellation source of C08 goes through ExecutionResult / executeAsync: the future stress (executor reuse after a cancelled async
+# execution, Cancel after completion, Cancel then Timeout) is also a C08 runner (round 9: executeAsync writing the child context back into the executor)
+PROPS["C08"]["runners"] = PROPS["C08"]["runners"] + [stress_runner("future", "an execution cancelled through its ExecutionResult did not report ErrExecutionCanceled, or an execution nobody cancelled (on an executor an earlier async execution was cancelled on) reported a cancellation")]
